@@ -123,6 +123,7 @@ def run(ctx, thorough_bounds=False):
     # dynamic part of the count clause: filter members, update_self_config, counts still agree
     _after_update(ctx)
     _generated(ctx)
+    if not ctx.violations: _resize_and_configs(ctx)
 
 
 def _generated(ctx):
@@ -157,6 +158,61 @@ def _generated(ctx):
                     ctx.violate(f"generated collection ({list(lens)}): item {i} is not item {i} of the concatenation", dict(lens=list(lens), how=how, generated=True, index=i)); return
 
 
+def _resize_and_configs(ctx):
+    """(1) items looked up, THEN a member resized in place by its owner (member.update_self_config only), then items looked up again:
+    item i must be item i of the concatenation of the members as they are now, and len / dataset_lengths / n_mazes must follow;
+    (2) collection configs that list fewer member configs than datasets are passed, and two collections whose configs were built from
+    one shared Python list: the reported count must still be the length."""
+    from maze_dataset import MazeDataset, MazeDatasetConfig
+    from maze_dataset.dataset.collected_dataset import MazeDatasetCollection, MazeDatasetCollectionConfig
+    for lens, which, newlen in [((2, 0, 3, 0, 2), 0, 1), ((2, 0, 3, 0, 2), 2, 0), ((1, 2), 0, 0), ((3, 1, 2), 1, 3), ((0, 2), 0, 2)]:
+        coll, members = _build(lens)
+        n0 = sum(lens)
+        for i in range(n0): coll[i]                      # populate whatever __getitem__ remembers
+        d = members[which]
+        pool = _mazes(2 + (which % 5), max(newlen, lens[which]), which)
+        d.mazes = list(pool[:newlen])
+        d.update_self_config()
+        flat = [m for dd in members for m in dd.mazes]
+        case = dict(lens=list(lens), resized_member=which, new_length=newlen, resize=True)
+        ctx.case(case, nontrivial=True); ctx.count("resized_member_after_lookup")
+        got_len, got_lens = len(coll), [int(x) for x in coll.dataset_lengths]
+        if got_len != len(flat) or got_lens != [len(dd.mazes) for dd in members] or int(coll.cfg.n_mazes) != len(flat):
+            ctx.violate(f"after member {which} of a collection with lengths {list(lens)} was resized to {newlen} (items had been looked up before): len {got_len}, "
+                        f"dataset_lengths {got_lens}, n_mazes {coll.cfg.n_mazes} do not agree with the members ({[len(dd.mazes) for dd in members]})", case); return
+        for i in range(len(flat)):
+            try: ok = coll[i] is flat[i]
+            except IndexError: ok = False
+            if not ok:
+                ctx.violate(f"after member {which} of a collection with lengths {list(lens)} was resized to {newlen} (items had been looked up before), "
+                            f"collection[{i}] is not item {i} of the concatenation of the members as they are now", dict(case, index=i)); return
+    # (2)
+    for lens in [(2, 3, 1), (1, 1)]:
+        members = []
+        for k, n in enumerate(lens):
+            members.append(MazeDataset(MazeDatasetConfig(name=f"m{k}", grid_n=2 + k, n_mazes=n), list(_mazes(2 + k, n, k))))
+        for label, cfglist in (("no member configs", []), ("a prefix of the member configs", [members[0].cfg])):
+            ctx.case(dict(short_cfg=label, lens=list(lens))); ctx.count("short_config_list")
+            try:
+                c = MazeDatasetCollection(MazeDatasetCollectionConfig(name="s", maze_dataset_configs=list(cfglist)), members)
+            except Exception:
+                continue      # refusing such a config is fine
+            if int(c.cfg.n_mazes) != len(c) or len(c) != sum(lens):
+                ctx.violate(f"a collection of member lengths {list(lens)} whose config lists {label} reports n_mazes={c.cfg.n_mazes} but has {len(c)} items",
+                            dict(lens=list(lens), short_cfg=label, resize=True)); return
+        shared = [d.cfg for d in members]
+        c1 = MazeDatasetCollection(MazeDatasetCollectionConfig(name="c1", maze_dataset_configs=shared), members)
+        others = [MazeDataset(MazeDatasetConfig(name=f"m{k}", grid_n=2 + k, n_mazes=1), list(_mazes(2 + k, 1, 10 + k))) for k in range(len(lens))]
+        try:
+            c2 = MazeDatasetCollection(MazeDatasetCollectionConfig(name="c2", maze_dataset_configs=shared), others)
+        except Exception:
+            c2 = None
+        ctx.case(dict(shared_cfg_list=list(lens))); ctx.count("shared_config_list")
+        if int(c1.cfg.n_mazes) != len(c1) or (c2 is not None and int(c2.cfg.n_mazes) != len(c2)):
+            ctx.violate(f"two collections whose configs were built from one list of member configs: first reports n_mazes={c1.cfg.n_mazes} with {len(c1)} items"
+                        + (f", second n_mazes={c2.cfg.n_mazes} with {len(c2)} items" if c2 is not None else ""), dict(lens=list(lens), shared_cfg_list=True, resize=True)); return
+
+
 def _after_update(ctx):
     from maze_dataset.dataset.collected_dataset import MazeDatasetCollection, MazeDatasetCollectionConfig
     for lens in [(3, 0, 2), (0, 4), (2, 2, 2)]:
@@ -176,6 +232,8 @@ def search(ctx):
     """deeper oracle-only exploration of the real code (used when an obligation or the correspondence broke)"""
     _generated(ctx)
     if ctx.violations: return
+    _resize_and_configs(ctx)
+    if ctx.violations: return
     for lens in _vectors(ctx, thorough_bounds=True):
         _check(ctx, lens)
         if ctx.violations:
@@ -186,6 +244,8 @@ def replay(ctx, rp):
     case = rp.get("case", rp)
     if case.get("generated"):
         _generated(ctx); return
+    if case.get("resize"):
+        _resize_and_configs(ctx); return
     if "order" in case:
         coll, members = _build(tuple(case["lens"]))
         flat = [m for d in members for m in d.mazes]
